@@ -5,8 +5,12 @@ the created_by_splink guard); Properties/C18.lean proves, for every history resp
 that user tables keep their contents, that registrations/drops are refused exactly as stated, that the bulk deletion removes
 every Splink-derived table and nothing else, and that dropped tables are gone.
 Tie: random operation histories (C07's catalogue + registrations onto existing names + guarded drops + cleanup calls at
-arbitrary points) on a real linker over PERSISTENT DuckDB / SQLite files pre-populated with user tables and a view (names
-similar to Splink's included).  After EVERY step the catalog is snapshotted (names, kinds, column lists, row checksums):
+arbitrary points) on a real linker over PERSISTENT DuckDB / SQLite files pre-populated with user tables (some empty) and a view
+(names similar to Splink's included).  Registrations go through every registering entry point the anchors name (register_table with
+the data in every accepted form incl. the NAME of an existing table, register_table_predict / _input_nodes_concat_with_tf /
+register_labels_table / register_term_frequency_lookup with both overwrite values and repeated, DatabaseAPI.register_multiple_tables
+with several tables, Linker(frame, input_table_aliases=<existing name>)); the linker's own input arrives as a table name, a name
+with a different alias, a frame, or a frame with an alias.  After EVERY step the catalog is snapshotted (names, kinds, column lists, row checksums):
 (a) oracle = the property itself, decided on the snapshots; (b) the observed request / registration / drop / named-store /
 cleanup events are replayed through the compiled Lean state machine (driver op `tables_trace`), which must predict every
 cache hit, every refusal and the catalog (names, owners, contents of user and caller tables) after every step.
@@ -17,6 +21,7 @@ import contextlib
 import hashlib
 import io
 import json
+import math
 import os
 import random
 import traceback
@@ -25,38 +30,115 @@ from harness import core, histories as H
 
 PROP = "C18"
 CLEANUP_OPS = {"invalidate": "invalidate", "mutate_invalidate": "invalidate", "delete_splink_tables": "delete_created"}
-LOCAL_OPS = ("reg_table", "drop_df", "debug_on", "debug_off")
+LOCAL_OPS = ("reg_table", "drop_df", "debug_on", "debug_off", "reg_special", "prep_concat_tf", "reg_multi", "linker_alias")
+GUARDED_OPS = ("reg_table", "drop_df", "reg_special", "reg_multi", "linker_alias")
 USER_NAME_POOL = ["__splink__mine", "__splink__df_concat", "__splink__df_concat_with_tf", "people_copy", "predictions", "__splink__df_predict",
                   "__splink__input_table_0", "__splink__df_tf_a"]
 DEBUG_NAME_POOL = ["r", "blocked_with_cols", "representatives", "__splink__df_concat_with_tf", "__splink__df_predict", "nodes_ids_only"]
 REG_TYPES = {"id": "int", "nm": "str"}
+EDGE_TYPES = {"unique_id_l": "int", "unique_id_r": "int", "match_weight": "float", "match_probability": "float"}
+LABEL_TYPES = {"unique_id_l": "int", "unique_id_r": "int", "clerical_match_score": "float"}
+# the forms of AcceptableInputTableType: a frame, record-level dicts, a dict of columns, a pyarrow table (DuckDB), the NAME of an existing table
+REG_FORMS = ["frame", "frame", "records", "dict", "arrow", "str"]
+# how the linker's own input reaches it: the name of a table | that name + an alias different from it | a frame (registered by Splink as
+# __splink__input_table_0, overwrite=True) | a frame + input_table_aliases (registered under the alias, overwrite=False)
+INPUT_FORMS = ["name", "name", "name_alias", "frame", "frame_alias"]
+INPUT_NAME = {"name": "people", "name_alias": "people", "frame": "__splink__input_table_0", "frame_alias": "people"}
 
 
 # --------------------------------------------------------------------------- generators
 def gen_rows(rng, lo=1, hi=4):
-    return [{"id": i + 1, "nm": rng.choice(["x", "y", "zed", None, "o'k"])} for i in range(rng.randint(lo, hi))]
+    return [{"id": i + 1, "nm": rng.choice(["x", "y", "zed", None, "o'k", ""])} for i in range(rng.randint(lo, hi))]
 
 
-def gen_user_objects(rng, debug=False):
+def gen_reg_rows(rng):
+    """rows handed to a registration: now and then none at all (an empty table still 'exists')"""
+    return gen_rows(rng, lo=0 if rng.random() < 0.15 else 1)
+
+
+def gen_user_objects(rng, debug=False, empty=True):
     objs = [{"name": "customers", "kind": "table", "rows": gen_rows(rng)}, {"name": "v_customers", "kind": "view", "of": "customers"}]
     pool = USER_NAME_POOL + (DEBUG_NAME_POOL if debug else [])
     for nm in sorted(set(rng.sample(pool, rng.randint(2, 4)) + (rng.sample(DEBUG_NAME_POOL, 2) if debug else []))):
-        objs.append({"name": nm, "kind": "table", "rows": gen_rows(rng)})
+        # an EMPTY user table (a staging table with a declared schema) is as much the user's as a full one
+        objs.append({"name": nm, "kind": "table", "rows": [] if empty and rng.random() < 0.2 else gen_rows(rng)})
     return objs
 
 
-def gen_local(rng):
-    if rng.random() < 0.55:
-        target = rng.choice(["user_table", "user_table", "user_view", "fresh", "own", "derived", "derived"])
+def gen_edges(rng, world):
+    """a small pairwise table over the ids of the input (what a caller keeps from an earlier predict())"""
+    ids = [r["unique_id"] for r in world["rows"]]
+    out = {}
+    for _ in range(rng.randint(1, 5)):
+        l, r = sorted(rng.sample(ids, 2))
+        pr = rng.choice([0.05, 0.3, 0.5, 0.7, 0.95])
+        out[(l, r)] = {"unique_id_l": l, "unique_id_r": r, "match_weight": round(math.log2(pr / (1 - pr)), 6), "match_probability": pr}
+    return [out[k] for k in sorted(out)]
+
+
+def gen_reg_item(rng, targets):
+    return {"target": rng.choice(targets), "idx": rng.randint(0, 5), "rows": gen_reg_rows(rng), "form": rng.choice(REG_FORMS), "src": rng.randint(0, 5)}
+
+
+def gen_local(rng, world=None):
+    """One of the operations C18 adds to C07's catalogue; returns a LIST of steps (a registration of df_concat_with_tf is preceded by
+    the step that obtains the frame)."""
+    x = rng.random()
+    if x < 0.40:
+        target = rng.choice(["user_table", "user_table", "user_view", "fresh", "own", "derived", "derived", "user_table_case"])
         ow = rng.random() < 0.4
         # target == "derived" and ow: defect F24 (repaired; corpus/C18/overwrite_onto_derived_name_*.json): register_table(...,
         # overwrite=True) under the physical name of a cached Splink table left the dict entry; the bulk deletion then dropped
         # the caller's table.  Generated again since the repair.
         if target == "user_view" and ow:
             ow = False  # engine-specific: SQLite's DROP TABLE on a view raises, DuckDB drops the view on the caller's request
-        return {"op": "reg_table", "p": {"target": target, "overwrite": ow, "idx": rng.randint(0, 5), "rows": gen_rows(rng)}}
-    target = rng.choice(["derived", "derived", "registered", "registered", "user", "input"])
-    return {"op": "drop_df", "p": {"target": target, "force": target == "registered" and rng.random() < 0.4, "idx": rng.randint(0, 5)}}
+        if target == "user_table_case":
+            ow = False  # CUSTOMERS names the user's table `customers`: must be refused; replacing on purpose is the caller's business
+        it = gen_reg_item(rng, [target])
+        steps = [{"op": "reg_table", "p": {"target": target, "overwrite": ow, "idx": it["idx"], "rows": it["rows"], "form": it["form"], "src": it["src"]}}]
+        if target != "user_view" and rng.random() < 0.2:
+            # the same name again (other data, any form but a name): refused without overwrite now that it exists, replaced with it
+            it2 = gen_reg_item(rng, ["again"])
+            steps.append({"op": "reg_table", "p": {"target": "again", "overwrite": rng.random() < 0.5, "idx": it2["idx"], "rows": it2["rows"],
+                                                   "form": it2["form"] if it2["form"] != "str" else "frame", "src": 0}})
+        return steps
+    if x < 0.52 and world is not None:
+        tfcols = sorted({c["col"] for c in world["comparisons"] if any("tf" in l for l in c["levels"])})
+        which = rng.choice(["predict", "predict", "concat_tf", "concat_tf", "labels", "tf_lookup"])
+        if which == "tf_lookup" and not tfcols:
+            which = "labels"
+        p = {"which": which, "overwrite": rng.random() < 0.4, "edges": gen_edges(rng, world)}
+        if which == "tf_lookup":
+            from harness.props import c02
+            p["col"] = rng.choice(tfcols)
+            p["table"] = {v: round(rng.uniform(0.05, 0.5), 3) for v in c02.STR_DOM[:5] if rng.random() < 0.8} or {c02.STR_DOM[0]: 0.25}
+        steps = [{"op": "reg_special", "p": p}]
+        if which == "concat_tf":
+            steps.insert(0, {"op": "prep_concat_tf", "p": {}})
+        if which in ("concat_tf", "predict") and rng.random() < 0.35:  # the same call again: refused without overwrite, carried out with it
+            steps.append({"op": "reg_special", "p": dict(p, overwrite=rng.random() < 0.5, edges=gen_edges(rng, world))})
+        return steps
+    if x < 0.60:
+        ow = rng.random() < 0.4
+        targets = ["fresh", "fresh", "user_table", "own", "derived"]
+        return [{"op": "reg_multi", "p": {"items": [gen_reg_item(rng, targets) for _ in range(rng.randint(2, 3))], "aliases": rng.random() < 0.8, "overwrite": ow,
+                                           "shared": rng.random() < 0.3}}]  # shared: ONE data object handed in under several names
+    if x < 0.65:
+        return [{"op": "linker_alias", "p": {"target": rng.choice(["user_table", "user_view", "own", "derived", "input"]), "idx": rng.randint(0, 5), "pair": rng.random() < 0.4}}]
+    target = rng.choice(["derived", "derived", "registered", "registered", "user", "input", "named_registered", "named_registered", "result"])
+    force = (target in ("registered", "named_registered", "result") and rng.random() < 0.4) or (target == "derived" and rng.random() < 0.3)
+    return [{"op": "drop_df", "p": {"target": target, "force": force, "idx": rng.randint(0, 5)}}]
+
+
+def fit_input_form(case):
+    """the histories' in-place mutation of the input needs a real table `people`; a frame handed to the linker cannot be mutated by SQL.
+    Splink registers a frame input as __splink__input_table_0 with overwrite=True (documented exclusion of the name-form hypothesis):
+    no user table of that name then."""
+    if case["input_form"] in ("frame", "frame_alias"):
+        case["history"] = [{"op": "invalidate", "p": {}} if s["op"] == "mutate_invalidate" else s for s in case["history"]]
+    if case["input_form"] == "frame":
+        case["user"] = [o for o in case["user"] if o["name"] != "__splink__input_table_0"]
+    return case
 
 
 def gen_case(rng, thorough=False, debug=False):
@@ -67,20 +149,21 @@ def gen_case(rng, thorough=False, debug=False):
     dbg = False
     for st in base:
         if rng.random() < 0.4:
-            hist.append(gen_local(rng))
+            hist.extend(gen_local(rng, world))
         if debug and rng.random() < 0.3:
             dbg = not dbg
             hist.append({"op": "debug_on" if dbg else "debug_off", "p": {}})
         hist.append(st)
     if rng.random() < 0.6:
-        hist.append(gen_local(rng))
+        hist.extend(gen_local(rng, world))
     if rng.random() < 0.6:
         hist.append({"op": rng.choice(["invalidate", "delete_splink_tables"]), "p": {}})
-    return {"world": world, "user": gen_user_objects(rng, debug), "history": hist, "tag": "debug" if debug else "history"}
+    return fit_input_form({"world": world, "user": gen_user_objects(rng, debug), "history": hist, "tag": "debug" if debug else "history", "input_form": rng.choice(INPUT_FORMS)})
 
 
 def adversarial_cases(rng):
-    """Fixed shapes: every guarded entry point right after tables exist, cleanup twice, cleanup first."""
+    """Fixed shapes: every guarded entry point right after tables exist, cleanup twice, cleanup first; re-registration under the same name
+    followed by the same call again, for every registering function of table_management."""
     out = []
     for engine in ("duckdb", "sqlite"):
         world = H.gen_world(rng, engine=engine)
@@ -106,6 +189,35 @@ def adversarial_cases(rng):
             {"op": "reg_table", "p": {"target": "user_table", "overwrite": True, "idx": 1, "rows": rows}},
             {"op": "mutate_invalidate", "p": {"new_row": {"unique_id": 501, "a": "ann", "b": "ann", "c": 1, "d": "p", "lab": None}}},
             {"op": "predict", "p": {}}, {"op": "delete_splink_tables", "p": {}}]})
+        edges, edges2 = gen_edges(rng, world), gen_edges(rng, world)
+
+        def reg(target, ow, form="frame", idx=0, rws=None):
+            return {"op": "reg_table", "p": {"target": target, "overwrite": ow, "idx": idx, "rows": rows if rws is None else rws, "form": form, "src": 0}}
+
+        def special(which, ow, e=edges):
+            return {"op": "reg_special", "p": {"which": which, "overwrite": ow, "edges": e}}
+
+        def item(target, form="frame", idx=0):
+            return {"target": target, "idx": idx, "rows": gen_rows(rng), "form": form, "src": 0}
+
+        for input_form, ow_first in (("frame", False), ("name_alias", True), ("frame_alias", False)):
+            out.append(fit_input_form({"world": world, "user": gen_user_objects(rng), "tag": "adversarial", "input_form": input_form, "history": [
+                reg("fresh", ow_first, "records"), reg("own", True, "dict"), reg("own", True, "dict"), reg("own", False, "arrow"), reg("own", True, "frame", rws=[]),
+                reg("user_table_case", False), reg("user_table", True, "str"), reg("user_table", False, "str", idx=1), reg("fresh", True, "str"),
+                special("predict", ow_first), {"op": "cluster", "p": {"t": 0.5}}, special("predict", False), special("predict", True, edges2),
+                {"op": "cluster", "p": {"t": 0.5}}, {"op": "graph_metrics", "p": {}}, {"op": "predict", "p": {}},
+                {"op": "prep_concat_tf", "p": {}}, special("concat_tf", ow_first), {"op": "predict", "p": {}}, special("concat_tf", False), special("concat_tf", True), {"op": "predict", "p": {}},
+                special("labels", False), special("labels", True),
+                {"op": "reg_multi", "p": {"items": [item("fresh"), item("user_table", "records")], "aliases": True, "overwrite": False}},
+                {"op": "reg_multi", "p": {"items": [item("user_table", "str"), item("fresh", "dict"), item("own")], "aliases": True, "overwrite": False}},
+                {"op": "reg_multi", "p": {"items": [item("fresh"), item("own", "records"), item("derived")], "aliases": True, "overwrite": True}},
+                {"op": "reg_multi", "p": {"items": [item("fresh"), item("user_table", "str")], "aliases": False, "overwrite": False}},
+                {"op": "linker_alias", "p": {"target": "user_table", "idx": 0, "pair": False}}, {"op": "linker_alias", "p": {"target": "own", "idx": 0, "pair": True}},
+                {"op": "linker_alias", "p": {"target": "input", "idx": 0, "pair": False}},
+                {"op": "drop_df", "p": {"target": "named_registered", "force": False, "idx": 0}}, {"op": "drop_df", "p": {"target": "derived", "force": True, "idx": 0}},
+                {"op": "delete_splink_tables", "p": {}}, {"op": "drop_df", "p": {"target": "named_registered", "force": True, "idx": 0}},
+                {"op": "delete_splink_tables", "p": {}}, {"op": "invalidate", "p": {}}, special("predict", False, edges2), {"op": "cluster", "p": {"t": 0.3}},
+                {"op": "invalidate", "p": {}}, {"op": "invalidate", "p": {}}]}))
     return out
 
 
@@ -200,8 +312,10 @@ def instrument_more(api, log):
         try:
             out = reg(input_tables, input_aliases, overwrite)
         except ValueError as e:
-            if "already exists in database" in str(e) and input_aliases and len(tabs) == 1:
-                log["events"].append({"k": "register", "name": input_aliases[0], "overwrite": bool(overwrite), "refused": True})
+            if "already exists in database" in str(e) and input_aliases:
+                # a call with several tables is refused as a whole; the message lists the names that exist
+                listed = str(e).split("Table(s): ", 1)[1].split(" already exists", 1)[0].split(", ")
+                log["events"].append({"k": "register", "name": listed[0], "overwrite": bool(overwrite), "refused": True, "of": len(tabs)})
             raise
         for t, alias in zip(tabs, list(out.keys())):
             if not isinstance(t, str):
@@ -213,11 +327,48 @@ def instrument_more(api, log):
     api.register_multiple_tables = my_reg
 
 
+def reg_input(form, rows, engine, types=REG_TYPES):
+    """(form actually used, the data in that form).  Empty data only as a typed frame (the other forms carry no schema without rows);
+    a pyarrow table only where the backend accepts one."""
+    from harness import impl
+
+    if not rows or form in ("frame", "str"):
+        return "frame", impl.typed_frame(rows, types)
+    if form == "arrow" and engine == "duckdb":
+        import pyarrow as pa
+
+        pat = {"int": pa.int64(), "str": pa.string(), "float": pa.float64()}
+        return "arrow", pa.Table.from_pylist([dict(r) for r in rows], schema=pa.schema([(c, pat[t]) for c, t in types.items()]))
+    if form == "dict":
+        return "dict", {c: [r[c] for r in rows] for c in types}
+    return "records", [dict(r) for r in rows]
+
+
+def make_linker_form(world, api, form):
+    """The linker of the history, its input handed over in the given form (see INPUT_FORMS)."""
+    from splink import Linker
+
+    from harness import impl
+
+    if form == "name":
+        return H.make_linker(world, api)
+    if form == "name_alias":
+        H.make_linker(world, api)  # creates the table `people` (the linker made here registers nothing: a string input)
+        return Linker("people", H.settings_dict(world), api, input_table_aliases="ppl")
+    df = impl.typed_frame(world["rows"], H.TYPES)
+    if form == "frame":
+        return Linker(df, H.settings_dict(world), api)
+    if form == "frame_alias":
+        return Linker(df, H.settings_dict(world), api, input_table_aliases="people")
+    raise ValueError(form)
+
+
 def apply_local(linker, api, case, step, state, snap, log, rec):
     """The operations C18 adds to the catalogue; fills the step record `rec` (before the real call, so that a raising call is still described)."""
     from harness import impl
 
     op, p = step["op"], step["p"]
+    engine = case["world"]["engine"]
     if op in ("debug_on", "debug_off"):
         api.debug_mode = op == "debug_on"
         return
@@ -226,39 +377,146 @@ def apply_local(linker, api, case, step, state, snap, log, rec):
     viewed = {o["of"] for o in case["user"] if o["kind"] == "view"}
     cache = api._intermediate_table_cache
     derived = sorted({d.physical_name for k, d in cache.data.items() if d.created_by_splink and k == d.physical_name and d.physical_name in snap})
+    named_reg = sorted({d.physical_name for k, d in cache.data.items() if not d.created_by_splink and d.physical_name in snap})
     regs = sorted(n for n in state.get("regs", {}) if n in snap)
+    tm = linker.table_management
 
-    def pick(lst):
-        return lst[p["idx"] % len(lst)] if lst else None
+    def pick(lst, idx=None):
+        return lst[(p["idx"] if idx is None else idx) % len(lst)] if lst else None
 
-    if op == "reg_table":
-        tgt = p["target"]
-        if tgt == "user_table":
-            cand = [n for n in user_tables if n not in viewed] if p["overwrite"] else user_tables
-            name = pick(cand)
+    def resolve(tgt, overwrite, idx, taken=()):
+        """(target class actually used, name)"""
+        if tgt in ("user_table", "user_table_case"):
+            name = pick([n for n in user_tables if n not in viewed] if overwrite else user_tables, idx)
+            if name is not None and tgt == "user_table_case":
+                name = name.upper() if name != name.upper() else name.lower()
         elif tgt == "user_view":
-            name = pick(user_views)
+            name = pick(user_views, idx)
         elif tgt == "own":
-            name = pick(regs)
+            name = pick(regs, idx)
         elif tgt == "derived":
-            name = pick(derived)
+            name = pick(derived, idx)
+        elif tgt == "input":
+            name = list(linker._input_tables_dict.values())[0].physical_name
+        elif tgt == "again":
+            name = state.get("last_reg_name") if state.get("last_reg_name") in snap else None
+            if name in viewed or name in user_views:
+                name = None  # (replacing a table under a view / a view: engine-specific, see gen_local)
         else:
             name = None
-        if name is None:
+        if name is None or name in taken:
             tgt = "fresh"
-            name = f"my_reg_{len(state.get('regs', {}))}_{p['idx']}"
-            while name in snap:
+            name = f"my_reg_{len(state.get('regs', {}))}_{idx}"
+            while name in snap or name in taken:
                 name += "x"
-        rec.update({"target": tgt, "name": name, "overwrite": p["overwrite"], "existed": name in snap})
-        df = impl.typed_frame(p["rows"], REG_TYPES)
+        return tgt, name
+
+    def replaced(names):
+        # a result handle whose table the caller has just replaced no longer stands for a prediction / clustering
+        if state.get("predict") is not None and state["predict"].physical_name in names:
+            state.pop("predict"); state.pop("cluster", None)
+        if state.get("cluster") is not None and state["cluster"].physical_name in names:
+            state.pop("cluster")
+
+    def refusal(fn):
         try:
-            sdf = linker.table_management.register_table(df, name, overwrite=p["overwrite"])
-            rec["refused"] = False
-            state.setdefault("regs", {})[name] = sdf
+            return False, fn()
         except ValueError as e:
             if "already exists in database" not in str(e):
                 raise
-            rec["refused"] = True
+            return True, None
+
+    if op == "reg_table":
+        tgt, name = resolve(p["target"], p["overwrite"], p["idx"])
+        form = p.get("form", "frame")
+        if form == "str":
+            # a string input is the NAME of a table that is already there (`name` is only its alias): nothing may be created, replaced or dropped
+            src = pick(user_tables + regs, p.get("src", 0))
+            rec.update({"target": tgt, "name": name, "overwrite": p["overwrite"], "form": "str", "source": src})
+            rec["refused"], _ = refusal(lambda: tm.register_table(src, name, overwrite=p["overwrite"]))
+            return
+        form, data = reg_input(form, p["rows"], engine)
+        state["last_reg_name"] = name
+        rec.update({"target": tgt, "name": name, "overwrite": p["overwrite"], "existed": name in snap, "form": form, "n_rows": len(p["rows"])})
+        rec["refused"], sdf = refusal(lambda: tm.register_table(data, name, overwrite=p["overwrite"]))
+        if not rec["refused"]:
+            replaced([name])
+            state.setdefault("regs", {})[name] = sdf
+        return
+    if op == "reg_multi":
+        names, forms, inputs = [], [], []
+        for it in p["items"]:
+            tgt, name = resolve(it["target"], p["overwrite"], it["idx"], taken=names)
+            if it["form"] == "str":
+                form, data = "str", pick(user_tables + regs, it.get("src", 0))
+            else:
+                form, data = reg_input(it["form"], it["rows"], engine)
+            if p.get("shared") and form != "str":
+                first = [(f, d) for f, d in zip(forms, inputs) if f != "str"]
+                form, data = first[0] if first else (form, data)
+            names.append(name); forms.append(form); inputs.append(data)
+        rec.update({"names": names if p["aliases"] else None, "forms": forms, "overwrite": p["overwrite"], "shared": bool(p.get("shared"))})
+        rec["refused"], out = refusal(lambda: api.register_multiple_tables(inputs, list(names) if p["aliases"] else None, p["overwrite"]))
+        if not rec["refused"]:
+            rec["registered"] = [a for a, f in zip(out.keys(), forms) if f != "str"]
+            replaced(rec["registered"])
+            for a, f in zip(list(out.keys()), forms):
+                if f != "str":
+                    state.setdefault("regs", {})[a] = out[a]
+        return
+    if op == "linker_alias":
+        # a second Linker whose input_table_aliases name something that exists: the registration inside Linker() (overwrite=False) must refuse
+        from splink import Linker
+
+        tgt, name = resolve(p["target"], False, p["idx"])
+        if tgt == "fresh":
+            tgt, name = resolve("user_table", False, p["idx"])
+        df = impl.typed_frame(case["world"]["rows"], H.TYPES)
+        aliases = name
+        tables = df
+        if p.get("pair"):
+            fresh = "my_other_input"
+            while fresh in snap:
+                fresh += "x"
+            tables, aliases = [df, df.copy()], [fresh, name]
+        rec.update({"target": tgt, "name": name, "pair": bool(p.get("pair"))})
+        rec["refused"], _ = refusal(lambda: Linker(tables, H.settings_dict(case["world"]), api, input_table_aliases=aliases))
+        return
+    if op == "prep_concat_tf":
+        from splink.internals.pipeline import CTEPipeline
+        from splink.internals.vertically_concatenate import compute_df_concat_with_tf
+
+        state["concat_frame"] = compute_df_concat_with_tf(linker, CTEPipeline()).as_pandas_dataframe()
+        return
+    if op == "reg_special":
+        which, ow = p["which"], p["overwrite"]
+        name = None
+        if which == "predict":
+            name = "__splink__df_predict_" + linker._cache_uid
+            data = impl.typed_frame(p["edges"], EDGE_TYPES)
+            call = lambda: tm.register_table_predict(data, overwrite=ow)  # noqa: E731
+        elif which == "concat_tf":
+            if state.get("concat_frame") is None:
+                rec["skipped"] = True
+                return
+            name = "__splink__df_concat_with_tf_" + linker._cache_uid
+            data = state["concat_frame"]
+            call = lambda: tm.register_table_input_nodes_concat_with_tf(data, overwrite=ow)  # noqa: E731
+        elif which == "labels":
+            data = impl.typed_frame([{"unique_id_l": e["unique_id_l"], "unique_id_r": e["unique_id_r"], "clerical_match_score": e["match_probability"]} for e in p["edges"]], LABEL_TYPES)
+            call = lambda: tm.register_labels_table(data, overwrite=ow)  # noqa: E731
+        elif which == "tf_lookup":
+            col = p["col"]
+            data = impl.typed_frame([{col: v, f"tf_{col}": t} for v, t in p["table"].items()], {col: "str", f"tf_{col}": "float"})
+            call = lambda: tm.register_term_frequency_lookup(data, col, overwrite=ow)  # noqa: E731
+        else:
+            raise ValueError(which)
+        rec.update({"which": which, "name": name, "overwrite": ow, "existed": name in snap if name else False})
+        rec["refused"], sdf = refusal(call)
+        if not rec["refused"]:
+            rec["name"] = sdf.physical_name
+            if which == "predict":
+                state["predict"] = sdf; state.pop("cluster", None)  # later cluster / graph-metrics steps run on the registered pairs
         return
     if op == "drop_df":
         tgt = p["target"]
@@ -269,9 +527,20 @@ def apply_local(linker, api, case, step, state, snap, log, rec):
         elif tgt == "registered" and regs:
             name = pick(regs)
             sdf = state["regs"][name]
+        elif tgt == "named_registered" and named_reg:
+            # registered through table_management (TF lookup, predictions, df_concat_with_tf, ...): held by the dict under a templated name
+            name = pick(named_reg)
+            sdf = cache[sorted(k for k, d in cache.data.items() if d.physical_name == name)[0]]
+        elif tgt == "result" and any(state.get(k) is not None and state[k].physical_name in derived + named_reg for k in ("predict", "cluster")):
+            # the very object a linker method returned (df_predict.drop_table_from_database_and_remove_from_cache(), as documented);
+            # only while the dict still holds its table (a handle that outlived a replacement of its table is outside the name discipline)
+            sdf = [state[k] for k in ("cluster", "predict") if state.get(k) is not None and state[k].physical_name in derived + named_reg][p["idx"] % 2 - 1]
+            name = sdf.physical_name
+            tgt = "derived" if name in derived else "named_registered"
+            rec["via"] = "returned object"
         elif tgt == "user" and (user_tables + user_views):
             name = pick(user_tables + user_views)
-            sdf = linker.table_management.register_table(name, "alias_of_" + name)  # a string input: wraps the existing table
+            sdf = tm.register_table(name, "alias_of_" + name)  # a string input: wraps the existing table
         elif tgt == "input":
             sdf = list(linker._input_tables_dict.values())[0]
             name = sdf.physical_name
@@ -292,8 +561,7 @@ def apply_local(linker, api, case, step, state, snap, log, rec):
                 state.pop("predict"); state.pop("cluster", None)  # compute_graph_metrics needs both
             if state.get("cluster") is not None and state["cluster"].physical_name == name:
                 state.pop("cluster")
-            if tgt == "registered":
-                state["regs"].pop(name, None)
+            state.get("regs", {}).pop(name, None)
         except ValueError as e:
             if "not a table created by Splink" not in str(e):
                 raise
@@ -308,6 +576,7 @@ def run_case(arg) -> dict:
 
     case, path = arg
     world, engine = case["world"], case["world"]["engine"]
+    input_name = INPUT_NAME[case.get("input_form", "name")]
     for f in (path, path + ".wal"):
         if os.path.exists(f):
             os.remove(f)
@@ -317,7 +586,7 @@ def run_case(arg) -> dict:
         snap0 = snapshot(api, engine)
         log = H.instrument(api)
         instrument_more(api, log)
-        linker = H.make_linker(world, api)
+        linker = make_linker_form(world, api, case.get("input_form", "name"))
         snaps = [snapshot(api, engine)]
         state: dict = {}
         steps = []
@@ -334,7 +603,7 @@ def run_case(arg) -> dict:
                         H.apply_op(linker, world, step, state)
             except Exception as e:  # noqa: BLE001
                 tb = traceback.format_exc()
-                if 'File "/repo/' not in tb or isinstance(e, core.HarnessError):
+                if f'File "{core.REPO}/' not in tb or isinstance(e, core.HarnessError):  # core.REPO: /repo, or the tree named by SPLINK_REPO
                     raise
                 msg = str(e)
                 rec["raised"] = f"{type(e).__name__}: {msg[:120]} ... {msg[-160:] if len(msg) > 280 else msg[120:]}"
@@ -344,7 +613,7 @@ def run_case(arg) -> dict:
             rec["debug"] = bool(api.debug_mode)
             snaps.append(snapshot(api, engine))
             steps.append(rec)
-            if any(n not in snaps[-1] for n in list(snap0) + ["people"]):
+            if any(n not in snaps[-1] for n in list(snap0) + [input_name]):
                 rec["stopped"] = "a user table is missing"  # the oracle reports it; later steps would only fail on it
                 break
             if "raised" in rec:
@@ -396,15 +665,19 @@ def oracle(case, r):
         raise core.HarnessError("pre-attachment snapshot disagrees with the generated user tables")
     user = {n: dict(e) for n, e in snap0.items()}
     rows = list(case["world"]["rows"])
-    if "people" in snap0:
-        raise core.HarnessError("people must not pre-exist")
+    people = INPUT_NAME[case.get("input_form", "name")]  # the linker's input, whichever way it was handed over: the user's from then on
+    if people in snap0:
+        raise core.HarnessError(f"{people} must not pre-exist")
     att = snaps[0]
     for n, e in user.items():
         if att.get(n) != e:
             out.append(("user table damaged", f"attaching the linker: user {e['kind']} {n} {describe(e, att.get(n))}", -1))
-    if set(att) - set(user) != {"people"} or att["people"]["sum"] != people_sum(rows):
+    if set(att) - set(user) != {people} or att[people]["sum"] != people_sum(rows):
         raise core.HarnessError(f"input table not set up as expected: {sorted(set(att) - set(user))}")
-    user["people"] = dict(att["people"])
+    user[people] = dict(att[people])
+
+    def present(name, snap):
+        return any(n.lower() == name.lower() for n in snap)  # SQL table names are case-insensitive in both engines
     caller: dict = {}
     classes = [{"user": dict(user), "caller": {}}]
     dbg_seen = False
@@ -416,23 +689,59 @@ def oracle(case, r):
         op = st["op"]
         raised = "raised" in st
         # refusals happen exactly when required, and a refused call changes nothing
-        if op == "reg_table" and not st.get("skipped") and not raised:
-            want = (st["name"] in prev) and not st["overwrite"]
+        if op == "reg_table" and not st.get("skipped") and not raised and st.get("form") == "str":
+            # the NAME of an existing table was handed in (with an alias): whatever the alias and the overwrite flag, nothing is created or dropped
+            if cur != prev:
+                out.append(("refusal", f"register_table({st['source']!r} (the name of an existing table), {st['name']!r}, overwrite={st['overwrite']}) changed the catalog{dbg}", i))
+        elif op == "reg_table" and not st.get("skipped") and not raised:
+            want = present(st["name"], prev) and not st["overwrite"]
             if st["refused"] != want:
-                out.append(("refusal", f"register_table({st['name']!r}, overwrite={st['overwrite']}) with the name {'present' if st['name'] in prev else 'absent'} "
+                out.append(("refusal", f"register_table({st['name']!r}, overwrite={st['overwrite']}) with the name {'present' if present(st['name'], prev) else 'absent'} "
                             f"was {'refused' if st['refused'] else 'carried out'}{dbg}", i))
             if st["refused"] and cur != prev:
                 out.append(("refusal", f"refused register_table({st['name']!r}) changed the catalog{dbg}", i))
             if not st["refused"] and st["name"] in user and st["overwrite"]:
                 user.pop(st["name"])  # the caller replaced their own table on purpose
+        if op == "reg_special" and not st.get("skipped") and not raised:
+            # register_table_predict / register_table_input_nodes_concat_with_tf / register_labels_table / register_term_frequency_lookup:
+            # the physical name is Splink's choice: st["name"] is the name actually used (after a refusal: the name the function builds from the
+            # linker's uid; None where it contains a fresh random part, which cannot collide)
+            nm = st["name"]
+            before = nm is not None and present(nm, prev)
+            want = before and not st["overwrite"]
+            if st["refused"] != want:
+                out.append(("refusal", f"registration of {st['which']} as {nm!r} (overwrite={st['overwrite']}) with the name {'present' if before else 'absent'} "
+                            f"was {'refused' if st['refused'] else 'carried out'}{dbg}", i))
+            if st["refused"] and cur != prev:
+                out.append(("refusal", f"refused registration of {st['which']} as {nm!r} changed the catalog{dbg}", i))
+        if op == "reg_multi" and not raised:
+            given = [(n, f) for n, f in zip(st["names"] or [], st["forms"]) if f != "str"]
+            want = (not st["overwrite"]) and any(present(n, prev) for n, _ in given)
+            if st["refused"] != want:
+                out.append(("refusal", f"register_multiple_tables(aliases={st['names']}, forms={st['forms']}, overwrite={st['overwrite']}) with "
+                            f"{[n for n, _ in given if present(n, prev)]} present was {'refused' if st['refused'] else 'carried out'}{dbg}", i))
+            if st["refused"] and cur != prev:
+                out.append(("refusal", f"refused register_multiple_tables(aliases={st['names']}) changed the catalog{dbg}", i))
+            if not st["refused"] and st["overwrite"]:
+                for n, _ in given:
+                    user.pop(n, None)  # the caller replaced their own table on purpose
+            if not st["refused"]:
+                for n, f in zip(st["names"] or [], st["forms"]):
+                    if f == "str" and cur.get(n) != prev.get(n):
+                        out.append(("refusal", f"register_multiple_tables: the alias {n!r} of a string input was created, replaced or dropped{dbg}", i))
+        if op == "linker_alias" and not raised:
+            if not st["refused"]:
+                out.append(("refusal", f"Linker(frame, input_table_aliases={st['name']!r}) with the name present was carried out{dbg}", i))
+            elif cur != prev:
+                out.append(("refusal", f"refused Linker(frame, input_table_aliases={st['name']!r}) changed the catalog{dbg}", i))
         if op == "drop_df" and not st.get("skipped") and not raised:
-            want = st["target"] in ("user", "input", "registered") and not st["force"]
+            want = st["target"] in ("user", "input", "registered", "named_registered") and not st["force"]
             if st["refused"] != want:
                 out.append(("refusal", f"drop_table_from_database_and_remove_from_cache(force={st['force']}) on the {st['target']} table {st['name']!r} "
                             f"was {'refused' if st['refused'] else 'carried out'}{dbg}", i))
             if st["refused"] and cur != prev:
                 out.append(("refusal", f"refused drop of {st['name']!r} changed the catalog{dbg}", i))
-            if not st["refused"] and st["target"] == "registered":
+            if not st["refused"] and st["target"] in ("registered", "named_registered"):
                 caller.pop(st["name"], None)  # forced by the caller
         # registrations of this step are caller data from now on
         for e in evs:
@@ -440,9 +749,9 @@ def oracle(case, r):
                 caller[e["name"]] = dict(cur[e["name"]])
         if op == "mutate_invalidate" and not raised:
             rows.append(case["history"][i]["p"]["new_row"])
-            user["people"]["sum"] = people_sum(rows)
+            user[people]["sum"] = people_sum(rows)
         elif op == "mutate_invalidate":
-            user["people"] = dict(cur.get("people", user["people"]))  # the harness's own INSERT may or may not have run
+            user[people] = dict(cur.get(people, user[people]))  # the harness's own INSERT may or may not have run
         for n, e in user.items():
             if cur.get(n) != e:
                 out.append(("user table damaged", f"step {i + 1} ({op}): user {e['kind']} {n} {describe(e, cur.get(n))}{dbg}", i))
@@ -489,8 +798,14 @@ def trace_request(case, r, classes):
                 raise core.HarnessError(f"physical name {e['phys']} is not templ_sha256(sql+uid)[:9] = {e['phys_expected']}")
             name2phys[e["phys_expected"]] = [code("T:" + e["templ"]), code("S:" + e["text"] + e["uid"])]
 
+    lowmap: dict = {}
+    for sn in [r["snap0"]] + list(r["snaps"]):
+        for n in sn:
+            lowmap.setdefault(n.lower(), n)
+
     def phys(name):
-        return name2phys.get(name) or [code("N:" + name), 0]
+        # SQL names are case-insensitive: CUSTOMERS names the catalog entry `customers`
+        return name2phys.get(name) or [code("N:" + lowmap.get(name.lower(), name)), 0]
 
     user0 = classes[0]["user"]
     req = {"op": "tables_trace", "user": [phys(n) + [code("V:" + e["sum"])] for n, e in sorted(user0.items())], "events": []}
@@ -561,7 +876,7 @@ def compare_model(case, r, classes, req, info, m):
                 want = 0 if nm in cl["user"] else 2 if nm in cl["caller"] else 1
                 if ow != want:
                     return f"step {i + 1}: owner of {nm}: oracle {want} vs Lean {ow} (0 user, 1 derived, 2 caller)"
-                if ow != 1 and nm != "people" and codes.get("V:" + cur[nm]["sum"]) != v:
+                if ow != 1 and nm != INPUT_NAME[case.get("input_form", "name")] and codes.get("V:" + cur[nm]["sum"]) != v:
                     return f"step {i + 1}: contents of {nm} differ from the Lean catalog"
     return None
 
@@ -617,9 +932,13 @@ def run(ctx: core.Ctx):
     ctx.rule = (
         "cases = random histories of 2-6 (thorough: 2-10) operations of C07's catalogue {estimate_u, estimate_m_from_label_column, EM, estimate_prior, predict(threshold?), deterministic_link, cluster, "
         "compute_tf_table, register_term_frequency_lookup, find_matches_to_new_records, compare_two_records, compute_graph_metrics, invalidate_cache, mutate-input+invalidate_cache, "
-        "delete_tables_created_by_splink_from_db} with cleanup calls over-weighted and interleaved with register_table(data, name, overwrite) onto {user table, user view, own registration, Splink-derived table, fresh name} "
-        "and SplinkDataFrame.drop_table_from_database_and_remove_from_cache(force) on {derived, caller-registered, user, input} tables; one linker over a PERSISTENT duckdb/sqlite file pre-populated with "
-        "customers + a view over it + 2-4 tables named like Splink's (__splink__df_concat, __splink__mine, predictions, ...); + fixed adversarial histories per engine; thorough adds debug_mode toggles. "
+        "delete_tables_created_by_splink_from_db} with cleanup calls over-weighted and interleaved with register_table(data, name, overwrite) onto {user table, the same name in another letter case, user view, own registration, "
+        "Splink-derived table, fresh name} with the data as {typed frame (also EMPTY), record dicts, dict of columns, pyarrow table, the NAME of an existing table}; register_table_predict / "
+        "register_table_input_nodes_concat_with_tf / register_labels_table / register_term_frequency_lookup with overwrite in {False, True} (also the same call again); DatabaseAPI.register_multiple_tables of 2-3 tables "
+        "(mixed existing/fresh names and forms, aliases given or None); Linker(frame, input_table_aliases=<existing name>) (one alias or [fresh, existing]); "
+        "and SplinkDataFrame.drop_table_from_database_and_remove_from_cache(force) on {derived (force too), caller-registered, registered-through-table_management (held by the dict under a templated name), user, input} tables; "
+        "one linker, its input handed over as {table name, table name + different alias, frame, frame + alias}, over a PERSISTENT duckdb/sqlite file pre-populated with "
+        "customers + a view over it + 2-4 tables (some EMPTY) named like Splink's (__splink__df_concat, __splink__mine, predictions, ...); + fixed adversarial histories per engine; thorough adds debug_mode toggles. "
         "After EVERY step the catalog (names, kinds, columns, row checksums) is snapshotted with the harness's own SQL; oracle = the property on the snapshots; the observed events are replayed through the Lean state machine "
         "(hits, refusals, catalog names+owners+contents of user/caller tables after every step). non-trivial = history with >= 1 cleanup step that removed >= 1 derived table and >= 1 refusal or registration; distinct = hash of the case."
     )
@@ -629,6 +948,8 @@ def run(ctx: core.Ctx):
         "registering with overwrite=True under the physical name of a cached Splink table is generated (defect F24, repaired): the caller's table must survive cleanup",
         "tables registered through register_table & co. (new records, two-record inputs, TF lookups, __splink__bridges_<hash>) count as caller data: only required to stay intact; they are NOT removed by the cleanup calls (counted under leftover_after_cleanup)",
         "SQL DROP/CREATE/catalog semantics of DuckDB and SQLite are trusted; a history ends at the first raising call (failure atomicity is C08), its catalog is still checked",
+        "a frame handed to Linker() without aliases is registered by Splink as __splink__input_table_0 with overwrite=True (name-form hypothesis): no user table of that name in those cases; the input is the user's from then on. "
+        "A string handed to register_table & co. names an existing table: required only to change nothing. A name in another letter case is generated with overwrite=False only",
     ]
     ctx.lean = core.lean_check(PROP, ctx.thorough)
     drv = core.Driver()
@@ -651,19 +972,31 @@ def run(ctx: core.Ctx):
             continue
         r = o["r"]
         n_clean = sum(1 for i, s in enumerate(r["steps"]) if s["op"] in CLEANUP_OPS and len(r["snaps"][i]) > len(r["snaps"][i + 1]))
-        n_guard = sum(1 for s in r["steps"] if s["op"] in ("reg_table", "drop_df") and not s.get("skipped"))
-        ctx.case({"world": c["world"], "user": c["user"], "history": c["history"]}, n_clean >= 1 and n_guard >= 1,
-                 sample={"engine": c["world"]["engine"], "user_objects": [u["name"] for u in c["user"]], "history": [s["op"] for s in c["history"]],
+        n_guard = sum(1 for s in r["steps"] if s["op"] in GUARDED_OPS and not s.get("skipped"))
+        ctx.case({"world": c["world"], "user": c["user"], "history": c["history"], "input_form": c.get("input_form", "name")}, n_clean >= 1 and n_guard >= 1,
+                 sample={"engine": c["world"]["engine"], "linker_input_form": c.get("input_form", "name"), "user_objects": [u["name"] for u in c["user"]], "history": [s["op"] for s in c["history"]],
                          "steps": [{k: v for k, v in s.items() if k not in ("ev0", "ev1")} for s in r["steps"]], "final_catalog": sorted(r["snaps"][-1])} if len(c["history"]) <= 5 else None)
-        ctx.count("engine", c["world"]["engine"]); ctx.count("history_length", len(c["history"])); ctx.count("family", c.get("tag", "?"))
+        ctx.count("engine", c["world"]["engine"]); ctx.count("history_length", min(len(c["history"]), 20)); ctx.count("family", c.get("tag", "?"))
+        ctx.count("linker_input_form", c.get("input_form", "name"))
+        ctx.count("empty_user_tables", sum(1 for u in c["user"] if u["kind"] == "table" and not u["rows"]))
         for i, s in enumerate(r["steps"]):
             ctx.count("op", s["op"])
             if "raised" in s:
                 ctx.count("op_raised", s["op"] + ": " + " ".join(s["raised"].split())[-90:])
-            if s["op"] == "reg_table" and "target" in s:
-                ctx.count("register", f"{s['target']} overwrite={s['overwrite']} -> {'refused' if s.get('refused') else 'raised' if 'raised' in s else 'done'}")
+            res = "refused" if s.get("refused") else "raised" if "raised" in s else "done"
+            if s["op"] == "reg_table" and s.get("form") == "str":
+                ctx.count("register_by_name_of_existing_table", f"alias = {s['target']} overwrite={s['overwrite']} -> {res}")
+            elif s["op"] == "reg_table" and "target" in s:
+                ctx.count("register", f"{s['target']} overwrite={s['overwrite']} -> {res}")
+                ctx.count("register_data_form", f"{s.get('form', 'frame')}{' (0 rows)' if s.get('n_rows') == 0 else ''} -> {res}")
+            if s["op"] == "reg_special" and "which" in s:
+                ctx.count("register_through_table_management", f"{s['which']} overwrite={s['overwrite']} name {'present' if s.get('existed') else 'absent'} -> {res}")
+            if s["op"] == "reg_multi" and "forms" in s:
+                ctx.count("register_multiple_tables", f"{len(s['forms'])} tables ({'aliases' if s['names'] else 'no aliases'}{', some by name' if 'str' in s['forms'] else ''}) overwrite={s['overwrite']}{' one object' if s.get('shared') else ''} -> {res}")
+            if s["op"] == "linker_alias" and "target" in s:
+                ctx.count("linker_alias_onto_existing", f"{s['target']}{' (second of two)' if s['pair'] else ''} -> {res}")
             if s["op"] == "drop_df" and "target" in s:
-                ctx.count("drop", f"{s['target']} force={s['force']} -> {'refused' if s.get('refused') else 'raised' if 'raised' in s else 'done'}")
+                ctx.count("drop", f"{s['target']}{' (' + s['via'] + ')' if 'via' in s else ''} force={s['force']} -> {res}")
             if s["op"] in CLEANUP_OPS and "raised" not in s:
                 ctx.count("tables_removed_by_cleanup", min(len(r["snaps"][i]) - len(r["snaps"][i + 1]), 8))
                 for n in set(r["snaps"][i + 1]) - set(o["classes"][0]["user"]):
